@@ -590,6 +590,9 @@ class ManifestContext:
                     pos = from_isodatetime(pos)
             if isinstance(pos, int):
                 drop_seg = pos
+            elif availabilityStartTime is None:
+                # a wall-clock position only has a meaning in a live stream
+                continue
             else:
                 tm = availabilityStartTime.replace(
                     hour=pos.hour, minute=pos.minute, second=pos.second)
